@@ -120,6 +120,7 @@ type Explorer struct {
 	stubInputs   []InputVal
 	used         []InputVal
 	knownClass   string
+	leanAsserts  bool // proven assertions are not added to the path condition (they are implied by it)
 }
 
 func (ex *Explorer) check(extra *Term, model bool) (Result, map[string]string, string) {
@@ -260,7 +261,11 @@ func (ex *Explorer) Assert(id string, c *Term) {
 		panic(&pathEnd{"stop", "assert false"})
 	}
 	if inPrefix {
-		ex.decide(1, c)
+		if ex.prefix[k] == 2 {
+			ex.decide(2, nil) // proven when first reached and left out of the path condition
+		} else {
+			ex.decide(1, c)
+		}
 		return
 	}
 	hr.mu.Lock()
@@ -301,7 +306,11 @@ func (ex *Explorer) Assert(id string, c *Term) {
 		hr.mu.Lock()
 		hr.obl(id).Discharged++
 		hr.mu.Unlock()
-		ex.decide(1, c)
+		if ex.leanAsserts {
+			ex.decide(2, nil)
+		} else {
+			ex.decide(1, c)
+		}
 		return
 	case Unknown:
 		hr.mu.Lock()
@@ -573,6 +582,7 @@ func (ex *Explorer) runPath(h *ssa.Function, prefix []int) (out pathOutcome) {
 	ex.trace = nil
 	ex.used = nil
 	ex.knownClass = ""
+	ex.leanAsserts = false
 	in := ex.in
 	in.resetPath()
 	defer func() {
@@ -793,6 +803,7 @@ func Explore(prog *ssa.Program, harnesses []*ssa.Function, rc RunConfig) []*Harn
 					hr.Solver.NSat += after.NSat - before.NSat
 					hr.Solver.NUnsat += after.NUnsat - before.NUnsat
 					hr.Solver.NUnknown += after.NUnknown - before.NUnknown
+					hr.Solver.NLSat += after.NLSat - before.NLSat
 					hr.Solver.Time += after.Time - before.Time
 					hr.mu.Unlock()
 					if rc.Verbose {
